@@ -39,7 +39,7 @@ ORCH = 'chainables.orchestrate'
 
 
 def run(ctx: Ctx):
-  for r in (r1, r2, r3, r4, r6, r7, r8, r12, r13):
+  for r in (r1, r2, r3, r4, r6, r7, r8, r12, r13, r15):
     ctx.guard(r)
   from mlmverif.props import c09
   from mlmverif.props import c13, c16
@@ -48,6 +48,11 @@ def run(ctx: Ctx):
               ' stage) pull from it under a lock, whatever kind of iterator it is'
               ' (R-C13-1) — its __next__ also updates that stage\'s aggregate',
               c13.r1, min_instances=3)
+  ctx.include('R-C03-14', '"with any number of worker threads ... all thread schedules": the queue that merges the per-thread'
+              ' sub-shards knows how many producers to expect BEFORE any of them runs (max_enqueuer=len(inputs), one producer'
+              ' per input — R-C13-2). Counting the producers as they start lets the stream end as soon as the threads started'
+              ' so far are done: a sub-shard whose thread is scheduled late is dropped from the batches and the aggregate',
+              c13.r2, min_instances=1)
   from mlmverif.props import c04
   from mlmverif.props._queue import model as qmodel
   ctx.include('R-C03-11', '"with any number of worker threads ... through the'
@@ -574,10 +579,51 @@ def r13(ctx: Ctx):
   ctx.floor(rule, 1)
 
 
+def r15(ctx: Ctx):
+  rule = 'R-C03-15'
+  ctx.rule(rule, '"as one fused stage or as a chain ... in process or with any number of worker threads": an INPUT STREAM handed'
+           ' to the iterator helpers is tested for presence with `is None`, never by truth. A pipeline iterator defines'
+           ' __len__ (0 when its total is unknown), so it is falsy: `iter_fn(inputs) if inputs else iter_fn()` starts the'
+           ' stage\'s function chain WITHOUT its input — a num_threads=0 stage fed by another pipeline emits nothing and'
+           ' aggregates nothing, while the threaded strategies (which wrap the input) give the full result')
+  from mlmverif.props.c17 import _truth_positions
+  repo = ctx.repo
+  n = 0
+  for mod in ('utils.iter_utils', 'chainables.transform'):
+    mi = repo.module(mod)
+    fns = list(mi.functions.values()) + [m_ for c in mi.classes.values() for m_ in c.methods.values()]
+    for fi in fns:
+      a = fi.node.args
+      pos = a.posonlyargs + a.args
+      defaults = dict(zip([x.arg for x in pos[len(pos) - len(a.defaults):]], a.defaults))
+      defaults.update({x.arg: d for x, d in zip(a.kwonlyargs, a.kw_defaults) if d is not None})
+      streams = {x.arg for x in pos + a.kwonlyargs if x.annotation is not None and any(
+          k in unparse(x.annotation) for k in ('Iterable', 'Iterator')) and 'Callable' not in unparse(x.annotation) and (
+              'None' in unparse(x.annotation) or (isinstance(defaults.get(x.arg), ast.Constant) and defaults[x.arg].value is None))}
+      if not streams:
+        continue
+      n += 1
+      bad = None
+      for t in _truth_positions(fi.node):
+        if isinstance(t, ast.Name) and t.id in streams:
+          bad = bad or t
+      what = f'{fi.qualname}: optional input streams {sorted(streams)} are tested with `is None`'
+      if bad is None:
+        ctx.ok(rule, fi, what, fi.node)
+      else:
+        ctx.fail(rule, fi, what,
+                 f'`{bad.id}` (line {bad.lineno}) is used as a truth value in {fi.qualname}: an iterator that defines __len__'
+                 ' (a pipeline iterator reports 0 when its total is unknown) or __bool__ is falsy although it yields'
+                 ' elements — the stage then runs without its input and silently produces nothing', node=bad)
+  ctx.floor(rule, 2, n)
+
+
 from mlmverif.selfcheck import B, OK  # noqa: E402
 
 _T = 'chainables/transform.py'
 VARIANTS = [
+    B('iterate-fn-input-tested-by-truth', 'utils/iter_utils.py',
+      '  return iter_fn(inputs) if inputs is not None else iter_fn()', '  return iter_fn(inputs) if inputs else iter_fn()', 'R-C03-15'),
     B('stage-iterator-keeps-foreign-entries', 'chainables/transform.py',
       '    self.agg_state = {\n        k: v for k, v in state.items() if k.metrics in self._runner.agg_fns\n    }',
       '    self.agg_state = dict(state)', 'R-C03-13'),
